@@ -2,7 +2,7 @@
    Statements only; proofs are in parse/OptThm.v (and parse/BuildThm.v) over the hand model. *)
 From Coq Require Import ZArith List Bool.
 From V Require Import base.Cal gen.ParseTables parse.Lex parse.Prim parse.Ymd parse.Parse parse.Build
-                      parse.ParseSpec parse.OptThm parse.ZoneThm.
+                      parse.ParseSpec parse.OptThm parse.ZoneThm parse.FillThm parse.SkipThm parse.FuzzyThm.
 Import ListNotations.
 Open Scope Z_scope.
 
@@ -72,3 +72,42 @@ Theorem C15_gmt_plus_h_is_behind : forall h, 1 <= h <= 23 ->
   OutOk (mkDt 2003 9 25 10 0 0 0) (ZOffset None (- (h * 3600))) 0 false [].
 Proof. exact gmt_plus_h_lemma. Qed.
 Print Assumptions C15_gmt_plus_h_is_behind.
+
+(* the construction step refines the default-fill specification: fields given by the text replace
+   those of the default, an absent day is the default day clipped to the month, a bare weekday
+   moves forward to the first such weekday found by search; success and value agree both ways *)
+Theorem C15_build_naive_refines_spec_fill : forall r d x,
+  wd_ok (r_weekday r) ->
+  (build_naive r d = Ok x <->
+   spec_fill (r_year r) (r_month r) (r_day r) (r_hour r) (r_minute r) (r_second r) (r_us r) (r_weekday r) d
+   = FillOk x).
+Proof. exact build_naive_refines_spec_fill. Qed.
+Print Assumptions C15_build_naive_refines_spec_fill.
+
+(* fuzzy_with_tokens: the skipped strings, concatenated, are the tokens at strictly increasing
+   positions of the token list: skipped text is returned in order of appearance *)
+Theorem C15_skipped_tokens_in_order : forall fz yf df cur s r toks,
+  50 <= cur -> parse_res fz true yf df cur s = Ok (Some (r, toks)) ->
+  exists (l : list str) (idxs : list nat),
+    asc 0 idxs /\ concat toks = concat (map (fun k => nth k l []) idxs).
+Proof. exact skipped_tokens_in_order_lemma. Qed.
+Print Assumptions C15_skipped_tokens_in_order.
+
+(* "any text accepted without fuzzy yields the same result with fuzzy" -- proved for ALL texts and
+   options under the guard strict_no_clash: the strict run never reaches an AM/PM word while an
+   AM/PM flag is already set.  The complement of the guard is exactly the open finding F-C15-ampm
+   (C15_fuzzy_conservative_refuted above; C15_d15_outside_guard: its witness violates the guard). *)
+Theorem C15_fuzzy_conservative_guarded : forall o s d z f w toks,
+  strict_no_clash (o_cur_year o) s ->
+  parse (set_fuzzy o false) s = OutOk d z f w toks ->
+  parse (set_fuzzy o true) s = OutOk d z f w toks.
+Proof. exact fuzzy_conservative_guarded_lemma. Qed.
+Print Assumptions C15_fuzzy_conservative_guarded.
+
+Theorem C15_guard_example : strict_no_clash 2026 [49; 48; 58; 48; 48; 32; 112; 109].
+Proof. exact strict_no_clash_example. Qed.
+Print Assumptions C15_guard_example.
+
+Theorem C15_d15_outside_guard : ~ strict_no_clash 2026 [49; 48; 58; 48; 48; 32; 97; 109; 32; 112; 109].
+Proof. exact d15_outside_guard. Qed.
+Print Assumptions C15_d15_outside_guard.
